@@ -143,7 +143,9 @@ def make_eom(h, M, nf, nparticles, includeOffEq):
     eom.boltzmannSolver = types.SimpleNamespace(setBackground=lambda b: None, getDeltas=lambda: bres)
 
     def fake_minimize(fun, x0, args=(), method=None, bounds=None, **kw):
-        return types.SimpleNamespace(x=np.array(x0), success=True, fun=None)
+        # the minimiser moves the wall: every parameter changes (stays inside the bounds)
+        x = np.asarray(x0) * 1.25 + 0.15
+        return types.SimpleNamespace(x=x, success=True, fun=None)
     h.patch_always(EOMM, scipy=types.SimpleNamespace(optimize=types.SimpleNamespace(
         minimize=fake_minimize, Bounds=lambda lb, ub: (lb, ub))))
     return eom, grid, dV, Vv, (Vl, Vh), msqd, D00, bres
@@ -173,11 +175,14 @@ def h_pressure(h, M, nf, nparticles, includeOffEq, regrid):
     dzdchi = np.asarray(fresh.getCompactificationDerivatives()[0], dtype=float)
     z = np.asarray(fresh.xiValues, dtype=float)
     want = 0.0
+    wfin = np.asarray(wp2.widths, dtype=float)
+    ofin = np.asarray(wp2.offsets, dtype=float)
     for j in range(n):
         s = 0.0
         for a in range(nf):
-            zl = z[j] / wp.widths[a] + wp.offsets[a]
-            dphi = 0.5 * (float(vh[0, a]) - float(vl[0, a])) / (wp.widths[a] * math.cosh(zl) ** 2)
+            # gradient of the wall that is RETURNED (after the minimisation step)
+            zl = z[j] / wfin[a] + ofin[a]
+            dphi = 0.5 * (float(vh[0, a]) - float(vl[0, a])) / (wfin[a] * math.cosh(zl) ** 2)
             g = dV[j, a]
             for k in range(nparticles):
                 g = g + [12, 6][k] * float(msqd[k][0][j, a]) * D00[k, j] / 2
@@ -185,9 +190,9 @@ def h_pressure(h, M, nf, nparticles, includeOffEq, regrid):
         want = want - (math.pi / M) * math.sqrt(1 - chi[j] ** 2) * float(dzdchi[j]) * s
     h.prove_close("pressure = - int dz (dV/dphi + dV_out) . dphi/dz with the current Jacobian", p, want,
                   rtol=0, atol=TOL * 1e3)
-    h.prove("first offset pinned to zero, widths/offsets passed through the (stubbed) minimiser", Cond(
-        b=float(wp2.offsets[0]) == 0.0 and np.allclose(np.asarray(wp2.widths, dtype=float), wp.widths)
-        and np.allclose(np.asarray(wp2.offsets, dtype=float)[1:], wp.offsets[1:])))
+    h.prove("first offset pinned to zero; returned wall = the minimiser's answer", Cond(
+        b=float(wp2.offsets[0]) == 0.0 and np.allclose(wfin, np.asarray(wp.widths) * 1.25 + 0.15)
+        and np.allclose(ofin[1:], np.asarray(wp.offsets)[1:] * 1.25 + 0.15)))
     h.observe("pressure", p)
 
 
